@@ -10,7 +10,7 @@ CHECK = {
                  "re-initialisation of the used object (NAME_init on fresh storage, capacities cap-1/cap/cap+1/1/max) is an operation of the search, its model is an empty ring of the new capacity whose mode is probed on a copy of the re-initialised object (the statement is silent on the mode after re-initialisation); "
                  "observers and both iterators run in every state, every iteration on iterator objects with 7 different histories; "
                  "plus a bounded-exhaustive family of structured histories on capacities straddling 2^8 and 2^16 (thorough also 2^15, 2^17); "
-                 "thorough only: the library's octet_ring driven on capacities 2^31+16 and 2^32+8 (lazily committed anonymous memory between two inaccessible pages, one process per capacity) through fill / overfill / drain (override off) and fill / evict once around (override on), "
+                 "thorough only: the library's octet_ring driven on capacities 2^31+16 and 2^32+8 (lazily committed anonymous memory between two inaccessible pages, one process per capacity) through fill / overfill / change of mode on the full ring / drain (override off) and fill / evict once around / clear / refill (override on), "
                  "the model being the interval of sequence numbers of the queued elements and a value function of the sequence number; size/empty/full and both iterators over their first 64 elements at checkpoints straddling 2^31, 2^32 and the capacity, counted in puts, gets and evictions; "
                  "build variants: the search at capacities 1..3 is repeated with assertions enabled everywhere (the repository's default build type), and with the library objects and the application (this harness with its own template instances) built with different NDEBUG settings, both ways (the two mixed builds only if a start-up probe finds the object layouts of both sides equal)",
     "rule": "a case is one transition (operation applied to a reachable state) followed by size/empty/full and both iterators run to completion; non-trivial = everything but clear of an empty ring; "
@@ -18,8 +18,8 @@ CHECK = {
             "layout probe cases (mixed builds): sizeof/alignof of rb_iter and of octet_ring on both sides of the library boundary; "
             "probe cases: init, cap puts, one more put, get (decides the mode the model gives a freshly initialised ring); "
             "big cases: one structured history (rotate cursors, fill, overfill, iterate, drain, iterate, two more puts, iterate, drain to empty); "
-            "huge cases (thorough): one history of about 2 x capacity operations on a ring of 2^31+16 or 2^32+8 octets -- override off: rotate, fill, two dropped puts, drain to empty (with 32 left: 32 puts across the wrap, 32 gets), get on empty; "
-            "override on: rotate, fill, capacity+32 evicting puts, 64 gets, 2 puts -- every get compared with the oldest element, observers (size/empty/full, both iterators over their first 64 elements, to completion on shorter queues) at every checkpoint; "
+            "huge cases (thorough): one history of about 2 x capacity operations on a ring of 2^31+16 or 2^32+8 octets -- override off: rotate, fill, two dropped puts, override(on) + two evicting puts + override(off) + one dropped put, drain to empty (with 32 left: 32 puts across the wrap, 32 gets), get on empty; "
+            "override on: rotate, fill, capacity+32 evicting puts, 64 gets, 2 puts, clear, 65 puts -- every get compared with the oldest element, observers (size/empty/full, both iterators over their first 64 elements, to completion on shorter queues) at every checkpoint; "
             "outcome huge-slow / huge-unmapped: the case was not run (projected time beyond half its watchdog budget / no address range), run marked non-exhaustive",
     "assumptions": ["two element values per type (float/double: fractions of either sign; int64_t: a negative value and one beyond 2^32), compared by bit pattern; capacities up to the stated bound (small-scope); large capacities only through the structured family named in the bound, with position-dependent element values",
                     "rings of more than 2^31 / 2^32 slots (thorough): octet_ring only (the template is the same text for every element type; 2 and 4 GiB of real memory per ring, one ring at a time per process, two processes); capacities 2^31+16 and 2^32+8, rotation 0 and 1 (2^32+8: 0); "
